@@ -257,3 +257,12 @@ Definition xsd_integer_type_contains (name : str) (z : Z) : bool :=
   else if str_eqb name [73;78;84] then ((-2147483648 <=? z) && (z <=? 2147483647))%Z                            (* int *)
   else if str_eqb name [76;79;78;71] then ((-9223372036854775808 <=? z) && (z <=? 9223372036854775807))%Z       (* long *)
   else str_eqb name [73;78;84;69;71;69;82].                                                                     (* integer *)
+
+(* ---- which datatype's lexical space a written value must lie in ----------------------
+   (DataType member names as code points).  The five g* lexical spaces are given
+   generatively in Spec/XsdDates.v (period_sp); they are pairwise disjoint by shape. *)
+Definition dt_G_DAY : str := [71;95;68;65;89].
+Definition dt_G_MONTH : str := [71;95;77;79;78;84;72].
+Definition dt_G_MONTH_DAY : str := [71;95;77;79;78;84;72;95;68;65;89].
+Definition dt_G_YEAR : str := [71;95;89;69;65;82].
+Definition dt_G_YEAR_MONTH : str := [71;95;89;69;65;82;95;77;79;78;84;72].
